@@ -147,9 +147,9 @@ def mk(w_nm, v, unit, valueunit):
     from checks import common as cm
     f = rs.factor("nm", unit)
     vv = v / f if valueunit else v          # density per unit wavelength
-    s = Spectrum(w_nm * f, vv.copy(), waveunit=unit, valueunit=valueunit)
-    # as constructed, or an equal duplicate (copy() / deepcopy / pickle round trip)
-    return cm.derive_obj(s, len(w_nm) + int(abs(float(v[0])) * 1000))[0]
+    # as constructed, an equal duplicate (copy() / deepcopy / pickle round trip), or built in another process
+    return cm.build_obj(Spectrum, "lentil.radiometry.Spectrum", len(w_nm) + int(abs(float(v[0])) * 1000),
+                        w_nm * f, vv.copy(), waveunit=unit, valueunit=valueunit)[0]
 
 
 def snapshot_phys(s):
